@@ -69,104 +69,255 @@ Proof.
   destruct (mem x Y) eqn:E; [|reflexivity]. rewrite (subset_spec _ _ S x E) in D. exact D.
 Qed.
 
-Definition ok_stmt (n : nat) : Prop :=
-  forall st li out s s' d tr s1 d1, chk_stmt st li out = true -> agree li s s' ->
-    run_stmt F truthy false n st s d = Some (tr, s1, d1) ->
-    exists s1', run_stmt F truthy true n st s' d = Some (tr, s1', d1) /\ agree out s1 s1'.
-Definition ok_block (n : nat) : Prop :=
-  forall b O s s' d tr s1 d1, chk_block b O = true -> agree (lin b O) s s' ->
-    run_block F truthy false n b s d = Some (tr, s1, d1) ->
-    exists s1', run_block F truthy true n b s' d = Some (tr, s1', d1) /\ agree O s1 s1'.
+Definition post (o : fout) (out X : list var) (s1 s1' : store) : Prop :=
+  match o with FN => agree out s1 s1' | FR => agree X s1 s1' end.
 
+Definition ok_stmt (n : nat) : Prop :=
+  forall st li out X s s' d tr o s1 d1, chk_stmt st li out X = true -> agree li s s' ->
+    run_stmt F truthy false n st s d = Some (tr, o, s1, d1) ->
+    exists s1', run_stmt F truthy true n st s' d = Some (tr, o, s1', d1) /\ post o out X s1 s1'.
+Definition ok_block (n : nat) : Prop :=
+  forall b O X s s' d tr o s1 d1, chk_block b O X = true -> agree (lin b O) s s' ->
+    run_block F truthy false n b s d = Some (tr, o, s1, d1) ->
+    exists s1', run_block F truthy true n b s' d = Some (tr, o, s1', d1) /\ post o O X s1 s1'.
 Definition ok_for (n : nat) : Prop :=
-  forall l tg ext L body vs k li out s s' d tr s1 d1,
-    subset (minus (lin body li) tg) li = true -> subset out li = true -> chk_block body li = true -> disjoint L li = true ->
+  forall l tg ext L body vs k li out X s s' d tr o s1 d1,
+    subset (minus (lin body li) tg) li = true -> subset out li = true -> chk_block body li X = true -> disjoint L li = true ->
     match ext with None => true | Some x => mem x li end = true ->
+    (negb (raises_block body) || disjoint L X) = true ->
     agree li s s' ->
-    run_for F truthy false n l tg ext L body vs k s d = Some (tr, s1, d1) ->
-    exists s1', run_for F truthy true n l tg ext L body vs k s' d = Some (tr, s1', d1) /\ agree out s1 s1'.
+    run_for F truthy false n l tg ext L body vs k s d = Some (tr, o, s1, d1) ->
+    exists s1', run_for F truthy true n l tg ext L body vs k s' d = Some (tr, o, s1', d1) /\ post o out X s1 s1'.
+
+(* a block that cannot raise does not end in an exception *)
+Lemma no_raise : forall fn n,
+  (forall st s d tr o s1 d1, run_stmt F truthy fn n st s d = Some (tr, o, s1, d1) -> raises_stmt st = false -> o = FN) /\
+  (forall b s d tr o s1 d1, run_block F truthy fn n b s d = Some (tr, o, s1, d1) -> raises_block b = false -> o = FN) /\
+  (forall l tg ext L body vs k s d tr o s1 d1, run_for F truthy fn n l tg ext L body vs k s d = Some (tr, o, s1, d1) ->
+      raises_block body = false -> o = FN).
+Proof.
+  intros fn. induction n as [|n [IHs [IHb IHf]]]; [repeat split; intros; discriminate|].
+  split; [|split].
+  - intros st s d tr o s1 d1 H R. destruct st as [l us ds | l us L1 b1 L2 b2 | l us L body | l us tg ext L body | l us | body hs orelse final];
+      simpl in H, R.
+    + destruct (reads s us); [|discriminate]. injection H as _ <- _ _. reflexivity.
+    + apply orb_false_iff in R. destruct R as [R1 R2]. destruct (reads s us); [|discriminate].
+      destruct (run_block F truthy fn n (if dhead d then b1 else b2) (enter fn (if dhead d then L1 else L2) s) (dtail d))
+        as [[[[t0 o0] s0] d0]|] eqn:E; [|discriminate]. injection H as _ <- _ _.
+      eapply IHb; [exact E|]. destruct (dhead d); assumption.
+    + destruct (reads s us); [|discriminate]. destruct (dhead d).
+      * destruct (run_block F truthy fn n body (enter fn L s) (dtail d)) as [[[[t0 o0] s0] d0]|] eqn:E; [|discriminate].
+        pose proof (IHb _ _ _ _ _ _ _ E R) as ->.
+        destruct (run_stmt F truthy fn n (AWhile l us L body) (leave fn L s s0) d0) as [[[[t2 o2] s2] d2]|] eqn:E2; [|discriminate].
+        injection H as _ <- _ _. eapply IHs; [exact E2 | exact R].
+      * injection H as _ <- _ _. reflexivity.
+    + destruct (reads s us); [|discriminate].
+      destruct (run_for F truthy fn n l tg ext L body l0 0 s d) as [[[[t0 o0] s0] d0]|] eqn:E; [|discriminate].
+      injection H as _ <- _ _. eapply IHf; [exact E | exact R].
+    + discriminate.
+    + apply orb_false_iff in R. destruct R as [R R4]. apply orb_false_iff in R. destruct R as [R R3].
+      apply orb_false_iff in R. destruct R as [R1 R2].
+      destruct (run_block F truthy fn n body s d) as [[[[t1 o1] s1'] d1']|] eqn:E1; [|discriminate].
+      pose proof (IHb _ _ _ _ _ _ _ E1 R1) as ->.
+      destruct (run_block F truthy fn n orelse s1' d1') as [[[[t2 o2] s2] d2]|] eqn:E2; [|discriminate].
+      pose proof (IHb _ _ _ _ _ _ _ E2 R3) as ->.
+      destruct (run_block F truthy fn n final s2 d2) as [[[[t3 o3] s3] d3]|]; [|discriminate].
+      destruct o3; [|discriminate]. injection H as _ <- _ _. reflexivity.
+  - intros b s d tr o s1 d1 H R. destruct b as [|li st r]; simpl in H, R.
+    + injection H as _ <- _ _. reflexivity.
+    + apply orb_false_iff in R. destruct R as [R1 R2].
+      destruct (run_stmt F truthy fn n st s d) as [[[[t0 o0] s0] d0]|] eqn:E; [|discriminate].
+      pose proof (IHs _ _ _ _ _ _ _ E R1) as ->.
+      destruct (run_block F truthy fn n r s0 d0) as [[[[t2 o2] s2] d2]|] eqn:E2; [|discriminate].
+      injection H as _ <- _ _. eapply IHb; [exact E2 | exact R2].
+  - intros l tg ext L body vs k s d tr o s1 d1 H R. simpl in H.
+    destruct (ext_stop truthy ext s) as [[|]|]; [| |discriminate].
+    + injection H as _ <- _ _. reflexivity.
+    + destruct (dhead d).
+      * destruct (run_block F truthy fn n body (write F (enter fn L s) l (vs ++ [k]) 0 tg) (dtail d)) as [[[[t0 o0] s0] d0]|] eqn:E; [|discriminate].
+        pose proof (IHb _ _ _ _ _ _ _ E R) as ->.
+        destruct (run_for F truthy fn n l tg ext L body vs (S k) (leave fn L s s0) d0) as [[[[t2 o2] s2] d2]|] eqn:E2; [|discriminate].
+        injection H as _ <- _ _. eapply IHf; [exact E2 | exact R].
+      * injection H as _ <- _ _. reflexivity.
+Qed.
+
+Lemma mem_app x X Y : mem x (X ++ Y) = mem x X || mem x Y.
+Proof. unfold mem. apply existsb_app. Qed.
+Lemma agree_app_l X Y s s' : agree (X ++ Y) s s' -> agree X s s'.
+Proof. intros A x Hx. apply A. rewrite mem_app, Hx. reflexivity. Qed.
+Lemma agree_app_r X Y s s' : agree (X ++ Y) s s' -> agree Y s s'.
+Proof. intros A x Hx. apply A. rewrite mem_app, Hx. apply orb_true_r. Qed.
+
+(* leaving a body function: what is needed of its locals *)
+Lemma leave_post o out X L s1 s1' so (rb : bool) :
+  post o out X s1 s1' -> disjoint L out = true -> (negb rb || disjoint L X) = true -> (o = FR -> rb = true) ->
+  post o out X s1 (leave true L so s1').
+Proof.
+  intros P D DX R. destruct o; simpl in *.
+  - apply leave_agree; assumption.
+  - rewrite (R eq_refl) in DX. simpl in DX. apply leave_agree; assumption.
+Qed.
+
+Lemma hnth_chk hs Fn Fx k h : chk_hs hs Fn Fx = true -> hnth hs k = Some h ->
+  chk_block h Fn Fx = true /\ (forall s s', agree (hins hs Fn ++ Fx) s s' -> agree (lin h Fn) s s').
+Proof.
+  revert k. induction hs as [|b r IH]; intros k C E; simpl in *; [discriminate|].
+  apply andb_true_iff in C. destruct C as [Cb Cr]. destruct k.
+  - injection E as <-. split; [exact Cb|]. intros s s' A. apply agree_app_l in A. apply agree_app_l in A. exact A.
+  - destruct (IH k Cr E) as [C2 A2]. split; [exact C2|]. intros s s' A. apply A2.
+    intros x Hx. apply A. rewrite !mem_app in *. apply orb_true_iff in Hx. destruct Hx as [Hx|Hx]; rewrite Hx; rewrite ?orb_true_r; reflexivity.
+Qed.
 
 Theorem fn_correct_all : forall n, ok_stmt n /\ ok_block n /\ ok_for n.
 Proof.
   induction n as [|n [IHs [IHb IHf]]]; split; [| split | | split].
-  - intros st li out s s' d tr s1 d1 _ _ H; discriminate.
-  - intros b O s s' d tr s1 d1 _ _ H; discriminate.
-  - intros l tg ext L body vs k li out s s' d tr s1 d1 _ _ _ _ _ _ H; discriminate.
-  - intros st li out s s' d tr s1 d1 C A H. destruct st as [l us ds | l us L1 b1 L2 b2 | l us L body | l us tg ext L body]; simpl in C, H |- *;
+  - intros st li out X s s' d tr o s1 d1 _ _ H; discriminate.
+  - intros b O X s s' d tr o s1 d1 _ _ H; discriminate.
+  - intros l tg ext L body vs k li out X s s' d tr o s1 d1 _ _ _ _ _ _ _ H; discriminate.
+  - intros st li out X s s' d tr o s1 d1 C A H.
+    destruct st as [l us ds | l us L1 b1 L2 b2 | l us L body | l us tg ext L body | l us | body hs orelse final]; simpl in C, H |- *;
       repeat rewrite enter_false in H; repeat rewrite leave_false in H.
     + (* atom *)
       apply andb_true_iff in C. destruct C as [Cu Co].
       rewrite <- (reads_agree li s s' us A Cu). destruct (reads s us) as [vs|]; [|discriminate].
-      injection H as <- <- <-. eexists; split; [reflexivity|].
+      injection H as <- <- <- <-. eexists; split; [reflexivity|]. simpl.
       apply write_agree. intros y Hy Hd. apply A. eapply subset_spec; [exact Co|]. rewrite mem_minus, Hy, Hd. reflexivity.
     + (* if *)
       repeat (apply andb_true_iff in C; destruct C as [C ?]).
-      rename H0 into D2o, H1 into D2i, H2 into D1o, H3 into D1i, H4 into C2, H5 into C1, H6 into S2, H7 into S1.
+      rename H0 into R2, H1 into R1, H2 into D2o, H3 into D2i, H4 into D1o, H5 into D1i, H6 into C2, H7 into C1, H8 into S2, H9 into S1.
       rewrite <- (reads_agree li s s' us A C). destruct (reads s us) as [vs|]; [|discriminate].
       destruct (dhead d); cbv iota in H |- *.
-      * destruct (run_block F truthy false n b1 s (dtail d)) as [[[tr0 s0] d0]|] eqn:E; [|discriminate]. injection H as <- <- <-.
-        destruct (IHb b1 out s (enter true L1 s') (dtail d) tr0 s0 d0 C1) as [s0' [R A0]]; [|exact E|].
+      * destruct (run_block F truthy false n b1 s (dtail d)) as [[[[tr0 o0] s0] d0]|] eqn:E; [|discriminate]. injection H as <- <- <- <-.
+        destruct (IHb b1 out X s (enter true L1 s') (dtail d) tr0 o0 s0 d0 C1) as [s0' [R P0]]; [|exact E|].
         { apply enter_agree; [eapply agree_mono; eassumption | exact D1i]. }
-        rewrite R. eexists; split; [reflexivity|]. apply leave_agree; assumption.
-      * destruct (run_block F truthy false n b2 s (dtail d)) as [[[tr0 s0] d0]|] eqn:E; [|discriminate]. injection H as <- <- <-.
-        destruct (IHb b2 out s (enter true L2 s') (dtail d) tr0 s0 d0 C2) as [s0' [R A0]]; [|exact E|].
+        rewrite R. eexists; split; [reflexivity|].
+        eapply leave_post; [exact P0 | exact D1o | exact R1|].
+        intros ->. destruct (raises_block b1) eqn:RB; [reflexivity|].
+        pose proof (proj1 (proj2 (no_raise false n)) _ _ _ _ _ _ _ E RB). discriminate.
+      * destruct (run_block F truthy false n b2 s (dtail d)) as [[[[tr0 o0] s0] d0]|] eqn:E; [|discriminate]. injection H as <- <- <- <-.
+        destruct (IHb b2 out X s (enter true L2 s') (dtail d) tr0 o0 s0 d0 C2) as [s0' [R P0]]; [|exact E|].
         { apply enter_agree; [eapply agree_mono; eassumption | exact D2i]. }
-        rewrite R. eexists; split; [reflexivity|]. apply leave_agree; assumption.
+        rewrite R. eexists; split; [reflexivity|].
+        eapply leave_post; [exact P0 | exact D2o | exact R2|].
+        intros ->. destruct (raises_block b2) eqn:RB; [reflexivity|].
+        pose proof (proj1 (proj2 (no_raise false n)) _ _ _ _ _ _ _ E RB). discriminate.
     + (* while *)
       pose proof C as C0.
       repeat (apply andb_true_iff in C; destruct C as [C ?]).
-      rename H0 into DL, H1 into Cb, H2 into So, H3 into Sb.
+      rename H0 into RX, H1 into DL, H2 into Cb, H3 into So, H4 into Sb.
       rewrite <- (reads_agree li s s' us A C). destruct (reads s us) as [vs|]; [|discriminate].
       destruct (dhead d).
-      * destruct (run_block F truthy false n body s (dtail d)) as [[[tr0 s0] d0]|] eqn:E; [|discriminate].
-        change (leave false L s s0) with s0 in H.
-        destruct (run_stmt F truthy false n (AWhile l us L body) s0 d0) as [[[tr2 s2] d2]|] eqn:E2; [|discriminate].
-        injection H as <- <- <-.
-        destruct (IHb body li s (enter true L s') (dtail d) tr0 s0 d0 Cb) as [s0' [R A0]]; [|exact E|].
+      * destruct (run_block F truthy false n body s (dtail d)) as [[[[tr0 o0] s0] d0]|] eqn:E; [|discriminate].
+        destruct (IHb body li X s (enter true L s') (dtail d) tr0 o0 s0 d0 Cb) as [s0' [R P0]]; [|exact E|].
         { apply enter_agree; [eapply agree_mono; eassumption | eapply disjoint_mono; eassumption]. }
-        rewrite R.
-        destruct (IHs (AWhile l us L body) li out s0 (leave true L s' s0') d0 tr2 s2 d2 C0) as [s2' [R2 A2]]; [|exact E2|].
-        { apply leave_agree; assumption. }
-        rewrite R2. eexists; split; [reflexivity | exact A2].
-      * injection H as <- <- <-. eexists; split; [reflexivity|]. eapply agree_mono; eassumption.
+        rewrite R. destruct o0.
+        -- change (leave false L s s0) with s0 in H.
+           destruct (run_stmt F truthy false n (AWhile l us L body) s0 d0) as [[[[tr2 o2] s2] d2]|] eqn:E2; [|discriminate].
+           injection H as <- <- <- <-.
+           destruct (IHs (AWhile l us L body) li out X s0 (leave true L s' s0') d0 tr2 o2 s2 d2 C0) as [s2' [R2 P2]]; [|exact E2|].
+           { apply leave_agree; assumption. }
+           rewrite R2. eexists; split; [reflexivity | exact P2].
+        -- injection H as <- <- <- <-. eexists; split; [reflexivity|]. simpl in P0 |- *.
+           destruct (raises_block body) eqn:RB.
+           ++ simpl in RX. apply leave_agree; assumption.
+           ++ pose proof (proj1 (proj2 (no_raise false n)) _ _ _ _ _ _ _ E RB). discriminate.
+      * injection H as <- <- <- <-. eexists; split; [reflexivity|]. simpl. eapply agree_mono; eassumption.
     + (* for *)
       repeat (apply andb_true_iff in C; destruct C as [C ?]).
-      rename H0 into Xe, H1 into DL, H2 into Cb, H3 into So, H4 into Sb.
+      rename H0 into RX, H1 into Xe, H2 into DL, H3 into Cb, H4 into So, H5 into Sb.
       rewrite <- (reads_agree li s s' us A C). destruct (reads s us) as [vs|]; [|discriminate].
-      destruct (run_for F truthy false n l tg ext L body vs 0 s d) as [[[tr0 s0] d0]|] eqn:E; [|discriminate]. injection H as <- <- <-.
-      destruct (IHf l tg ext L body vs 0 li out s s' d tr0 s0 d0 Sb So Cb DL Xe A E) as [s0' [R A0]].
-      rewrite R. eexists; split; [reflexivity | exact A0].
-  - intros b O s s' d tr s1 d1 C A H. destruct b as [|li st r]; simpl in C, H |- *.
-    + injection H as <- <- <-. eexists; split; [reflexivity | exact A].
+      destruct (run_for F truthy false n l tg ext L body vs 0 s d) as [[[[tr0 o0] s0] d0]|] eqn:E; [|discriminate]. injection H as <- <- <- <-.
+      destruct (IHf l tg ext L body vs 0 li out X s s' d tr0 o0 s0 d0 Sb So Cb DL Xe RX A E) as [s0' [R P0]].
+      rewrite R. eexists; split; [reflexivity | exact P0].
+    + (* raise *)
+      apply andb_true_iff in C. destruct C as [Cu Cx].
+      rewrite <- (reads_agree li s s' us A Cu). destruct (reads s us) as [vs|]; [|discriminate].
+      injection H as <- <- <- <-. eexists; split; [reflexivity|]. simpl. eapply agree_mono; eassumption.
+    + (* try *)
+      repeat (apply andb_true_iff in C; destruct C as [C ?]).
+      rename H0 into Cbody, H1 into Corelse, H2 into Chs, H3 into Cfinal.
+      rename H4 into Cfinal2.
+      set (Fn := lin final out) in *. set (Fx := lin final X) in *. set (E0 := lin orelse Fn) in *.
+      destruct (run_block F truthy false n body s d) as [[[[tr1 o1] s1'] d1']|] eqn:E1; [|discriminate].
+      destruct (IHb body E0 (hins hs Fn ++ Fx) s s' d tr1 o1 s1' d1' Cbody) as [t1 [R1 P1]]; [|exact E1|].
+      { eapply agree_mono; eassumption. }
+      rewrite R1.
+      (* the part between the body and the finally clause, in both modes *)
+      assert (MID : forall tr2 o2 s2 d2,
+                match o1 with
+                | FN => run_block F truthy false n orelse s1' d1'
+                | FR => match hnth hs (dnat d1') with
+                        | Some h => run_block F truthy false n h s1' (dtail d1')
+                        | None => Some ([], FR, s1', dtail d1')
+                        end
+                end = Some (tr2, o2, s2, d2) ->
+                exists t2, match o1 with
+                | FN => run_block F truthy true n orelse t1 d1'
+                | FR => match hnth hs (dnat d1') with
+                        | Some h => run_block F truthy true n h t1 (dtail d1')
+                        | None => Some ([], FR, t1, dtail d1')
+                        end
+                end = Some (tr2, o2, t2, d2) /\ post o2 Fn Fx s2 t2).
+      { intros tr2 o2 s2 d2 M. destruct o1; simpl in P1.
+        - destruct (IHb orelse Fn Fx s1' t1 d1' tr2 o2 s2 d2 Corelse P1 M) as [t2 [R2 P2]].
+          exists t2. split; [exact R2 | exact P2].
+        - destruct (hnth hs (dnat d1')) as [h|] eqn:EH.
+          + destruct (hnth_chk hs Fn Fx _ _ Chs EH) as [Ch Ah].
+            destruct (IHb h Fn Fx s1' t1 (dtail d1') tr2 o2 s2 d2 Ch (Ah _ _ P1) M) as [t2 [R2 P2]].
+            exists t2. split; [exact R2 | exact P2].
+          + injection M as <- <- <- <-. exists t1. split; [reflexivity|]. simpl. apply agree_app_r in P1. exact P1. }
+      destruct (match o1 with
+                | FN => run_block F truthy false n orelse s1' d1'
+                | FR => match hnth hs (dnat d1') with
+                        | Some h => run_block F truthy false n h s1' (dtail d1')
+                        | None => Some ([], FR, s1', dtail d1')
+                        end
+                end) as [[[[tr2 o2] s2] d2]|] eqn:EM; [|discriminate].
+      destruct (MID tr2 o2 s2 d2 eq_refl) as [t2 [R2 A2]]. rewrite R2.
+      destruct (run_block F truthy false n final s2 d2) as [[[[tr3 o3] s3] d3]|] eqn:E3; [|discriminate].
+      destruct o3; [|discriminate]. injection H as <- <- <- <-.
+      destruct o2; simpl in A2.
+      * destruct (IHb final out X s2 t2 d2 tr3 FN s3 d3 Cfinal2 A2 E3) as [t3 [R3 P3]]. rewrite R3.
+        eexists; split; [reflexivity | exact P3].
+      * destruct (IHb final X X s2 t2 d2 tr3 FN s3 d3 Cfinal A2 E3) as [t3 [R3 P3]]. rewrite R3.
+        eexists; split; [reflexivity | exact P3].
+  - intros b O X s s' d tr o s1 d1 C A H. destruct b as [|li st r]; simpl in C, H |- *.
+    + injection H as <- <- <- <-. eexists; split; [reflexivity | exact A].
     + apply andb_true_iff in C. destruct C as [Cs Cr]. simpl in A.
-      destruct (run_stmt F truthy false n st s d) as [[[tr0 s0] d0]|] eqn:E; [|discriminate].
-      destruct (run_block F truthy false n r s0 d0) as [[[tr2 s2] d2]|] eqn:E2; [|discriminate].
-      injection H as <- <- <-.
-      destruct (IHs st li (lin r O) s s' d tr0 s0 d0 Cs A E) as [s0' [R A0]]. rewrite R.
-      destruct (IHb r O s0 s0' d0 tr2 s2 d2 Cr A0 E2) as [s2' [R2 A2]]. rewrite R2.
-      eexists; split; [reflexivity | exact A2].
+      destruct (run_stmt F truthy false n st s d) as [[[[tr0 o0] s0] d0]|] eqn:E; [|discriminate].
+      destruct (IHs st li (lin r O) X s s' d tr0 o0 s0 d0 Cs A E) as [s0' [R P0]]. rewrite R.
+      destruct o0.
+      * destruct (run_block F truthy false n r s0 d0) as [[[[tr2 o2] s2] d2]|] eqn:E2; [|discriminate].
+        injection H as <- <- <- <-.
+        destruct (IHb r O X s0 s0' d0 tr2 o2 s2 d2 Cr P0 E2) as [s2' [R2 P2]]. rewrite R2.
+        eexists; split; [reflexivity | exact P2].
+      * injection H as <- <- <- <-. eexists; split; [reflexivity | exact P0].
   - (* the iterations of a for loop *)
-    intros l tg ext L body vs k li out s s' d tr s1 d1 Sb So Cb DL Xe A H. simpl in H |- *.
+    intros l tg ext L body vs k li out X s s' d tr o s1 d1 Sb So Cb DL Xe RX A H. simpl in H |- *.
     assert (EX : ext_stop truthy ext s' = ext_stop truthy ext s).
     { destruct ext as [x|]; [|reflexivity]. simpl. rewrite (A x Xe). reflexivity. }
     rewrite EX. destruct (ext_stop truthy ext s) as [[|]|]; [| |discriminate].
-    { injection H as <- <- <-. eexists; split; [reflexivity|]. eapply agree_mono; eassumption. }
+    { injection H as <- <- <- <-. eexists; split; [reflexivity|]. simpl. eapply agree_mono; eassumption. }
     destruct (dhead d).
     + rewrite enter_false in H.
-      destruct (run_block F truthy false n body (write F s l (vs ++ [k]) 0 tg) (dtail d)) as [[[tr0 s0] d0]|] eqn:E; [|discriminate].
-      change (leave false L s s0) with s0 in H.
-      destruct (run_for F truthy false n l tg ext L body vs (S k) s0 d0) as [[[tr2 s2] d2]|] eqn:E2; [|discriminate].
-      injection H as <- <- <-.
-      destruct (IHb body li (write F s l (vs ++ [k]) 0 tg) (write F (enter true L s') l (vs ++ [k]) 0 tg) (dtail d) tr0 s0 d0 Cb)
-        as [s0' [R A0]]; [|exact E|].
+      destruct (run_block F truthy false n body (write F s l (vs ++ [k]) 0 tg) (dtail d)) as [[[[tr0 o0] s0] d0]|] eqn:E; [|discriminate].
+      destruct (IHb body li X (write F s l (vs ++ [k]) 0 tg) (write F (enter true L s') l (vs ++ [k]) 0 tg) (dtail d) tr0 o0 s0 d0 Cb)
+        as [s0' [R P0]]; [|exact E|].
       { apply write_agree. intros y Hy Hd. unfold enter.
         assert (M : mem y li = true) by (eapply subset_spec; [exact Sb|]; rewrite mem_minus, Hy, Hd; reflexivity).
         rewrite (disjoint_spec _ _ DL y M). apply A, M. }
-      rewrite R.
-      destruct (IHf l tg ext L body vs (S k) li out s0 (leave true L s' s0') d0 tr2 s2 d2 Sb So Cb DL Xe) as [s2' [R2 A2]]; [|exact E2|].
-      { apply leave_agree; assumption. }
-      rewrite R2. eexists; split; [reflexivity | exact A2].
-    + injection H as <- <- <-. eexists; split; [reflexivity|]. eapply agree_mono; eassumption.
+      rewrite R. destruct o0.
+      * change (leave false L s s0) with s0 in H.
+        destruct (run_for F truthy false n l tg ext L body vs (S k) s0 d0) as [[[[tr2 o2] s2] d2]|] eqn:E2; [|discriminate].
+        injection H as <- <- <- <-.
+        destruct (IHf l tg ext L body vs (S k) li out X s0 (leave true L s' s0') d0 tr2 o2 s2 d2 Sb So Cb DL Xe RX) as [s2' [R2 P2]]; [|exact E2|].
+        { apply leave_agree; assumption. }
+        rewrite R2. eexists; split; [reflexivity | exact P2].
+      * injection H as <- <- <- <-. eexists; split; [reflexivity|]. simpl in P0 |- *.
+        destruct (raises_block body) eqn:RB.
+        -- simpl in RX. apply leave_agree; assumption.
+        -- pose proof (proj1 (proj2 (no_raise false n)) _ _ _ _ _ _ _ E RB). discriminate.
+    + injection H as <- <- <- <-. eexists; split; [reflexivity|]. simpl. eapply agree_mono; eassumption.
 Qed.
 End Proofs.
 
@@ -193,8 +344,9 @@ Qed.
 (* every terminating, non-stuck run of the original from a store is matched by the functional form started in
    any store that agrees on what is live at entry: same events with the same values read, same decisions
    consumed, and the final stores agree on the variables in O (what is live at the exit) *)
-Theorem functionalise_correct_lemma : forall F truthy n b O s s' d tr s1 d1,
-  chk_block b O = true -> agree (lin b O) s s' ->
-  run_block F truthy false n b s d = Some (tr, s1, d1) ->
-  exists s1', run_block F truthy true n b s' d = Some (tr, s1', d1) /\ agree O s1 s1'.
+Theorem functionalise_correct_lemma : forall F truthy n b O X s s' d tr o s1 d1,
+  chk_block b O X = true -> agree (lin b O) s s' ->
+  run_block F truthy false n b s d = Some (tr, o, s1, d1) ->
+  exists s1', run_block F truthy true n b s' d = Some (tr, o, s1', d1) /\
+              match o with FN => agree O s1 s1' | FR => agree X s1 s1' end.
 Proof. intros F truthy n. exact (proj1 (proj2 (fn_correct_all F truthy n))). Qed.
